@@ -192,7 +192,12 @@ func (e *env) genArgs(rt *rapid.T, specs []argSpec) []Arg {
 			out[i] = Arg{U: genU64(rt, label)}
 		case "balance":
 			inc, maxEff := e.cfg.U["EFFECTIVE_BALANCE_INCREMENT"], e.cfg.U["MAX_EFFECTIVE_BALANCE"]
-			switch rapid.IntRange(0, 5).Draw(rt, label+"_k") {
+			switch rapid.IntRange(0, 6).Draw(rt, label+"_k") {
+			case 6:
+				// a count of increments that is small modulo 2^32 (or 2^16): huge balances whose increment count must not be narrowed
+				sh := rapid.SampledFrom([]uint{32, 32, 16}).Draw(rt, label+"_sh")
+				k := rapid.Uint64Range(1, 4).Draw(rt, label+"_hi")
+				out[i] = Arg{U: (k<<sh+rapid.Uint64Range(0, 40).Draw(rt, label))*inc + rapid.SampledFrom([]uint64{0, 7, inc - 1}).Draw(rt, label+"_r")}
 			case 0:
 				out[i] = Arg{U: maxEff + rapid.Uint64Range(0, 2*inc).Draw(rt, label)}
 			case 1:
